@@ -288,3 +288,79 @@ package tax
 //@   loop 1 invariant summary != nil && fresh(summary) && summary.Ext != nil && fresh(summary.Ext) && summary.Codes != nil && fresh(summary.Codes) && (forall i int :: 0 <= i && i < len(summary.Notes) ==> summary.Notes[i] != nil) && fresh(summary.Notes)
 //@   loop 2 invariant summary != nil && fresh(summary) && summary.Ext != nil && fresh(summary.Ext) && summary.Codes != nil && fresh(summary.Codes) && (forall i int :: 0 <= i && i < len(summary.Notes) ==> summary.Notes[i] != nil) && fresh(summary.Notes)
 //@   loop 3 invariant summary != nil && fresh(summary) && summary.Ext != nil && fresh(summary.Ext) && summary.Codes != nil && fresh(summary.Codes) && (forall i int :: 0 <= i && i < len(summary.Notes) ==> summary.Notes[i] != nil) && fresh(summary.Notes)
+//
+// ---- C18: validated extensions only use registered keys with allowed values
+//
+// the register of extension definitions is read through one map lookup
+//@ global extensionDefs != nil
+//@ func ExtensionForKey(key) (r)
+//@   ensures [lookup] r == ite(has(extensionDefs.list, key), extensionDefs.list[key], nil)
+//
+// extResolved: the key is registered, the value is one of the allowed codes when codes are
+// listed, and matches the declared pattern when there is one
+//@ pred extResolved(k cbc.Key, v cbc.Code) bool = has(extensionDefs.list, k) && extensionDefs.list[k] != nil && \
+//@     (len(extensionDefs.list[k].Values) > 0 ==> cbc.codeAmong(v, extensionDefs.list[k].Values)) && \
+//@     (extensionDefs.list[k].Pattern != "" ==> patMatch(extensionDefs.list[k].Pattern, v))
+//@ pred registerOK() bool = forall k cbc.Key :: has(extensionDefs.list, k) && extensionDefs.list[k] != nil ==> cbc.valuesOK2(extensionDefs.list[k].Values)
+//
+//@ func (em Extensions) Validate() (res)
+//@   requires registerOK()
+//@   assume-frame Key).Validate |
+//@   ensures [resolved] res == nil ==> (forall k cbc.Key :: has(em, k) ==> extResolved(k, em[k]))
+//@   loop 1 invariant err != nil && fresh(err)
+//@   loop 2 invariant registerOK()
+//@   loop 2 invariant err != nil && fresh(err) && (len(err) == 0 ==> (forall k cbc.Key :: $visited[k] ==> extResolved(k, em[k])))
+//
+// ---- C18: a combo's category and rate key are checked against the regime that applies to it
+//
+// registry lookups: results are functions of their arguments, nothing is written (A-REGISTRY)
+//@ func RegimeDefFor(country) (r)
+//@   trusted A-REGISTRY: read-only lookup in the regime register; registered definitions have no nil category or rate entries
+//@   pure
+//@   ensures r != nil ==> regimeCatsOK(r)
+//@ func RegimeDefFromContext(ctx) (r)
+//@   trusted A-REGISTRY: reads the regime stored in the context; registered definitions have no nil category or rate entries
+//@   pure
+//@   ensures r != nil ==> regimeCatsOK(r)
+//
+//@ func (r *RegimeDef) InCategories() (rule)
+//@   requires r != nil ==> regimeCatsOK(r)
+//@   assume-frame validation.In |
+//@   assume-frame absentRule).Error |
+//@   loop 1 invariant len(cats) == len(r.Categories) && fresh(cats)
+//
+//@ pred regimeCatsOK(r *RegimeDef) bool = forall i int :: 0 <= i && i < len(r.Categories) ==> r.Categories[i] != nil && (forall j int :: 0 <= j && j < len(r.Categories[i].Rates) ==> r.Categories[i].Rates[j] != nil)
+//@ func (r *RegimeDef) CategoryDef(code) (c)
+//@   requires r != nil ==> regimeCatsOK(r)
+//@   ensures [none] c == nil ==> r == nil || (forall i int :: 0 <= i && i < len(r.Categories) ==> r.Categories[i].Code != code)
+//@   ensures [first] c != nil ==> r != nil && (exists i int :: 0 <= i && i < len(r.Categories) && r.Categories[i] == c && c.Code == code && (forall j int :: 0 <= j && j < i ==> r.Categories[j].Code != code))
+//@   loop 1 invariant forall j int :: 0 <= j && j < idx ==> r.Categories[j].Code != code
+//
+// the rule built for a category of a regime holds exactly that category's rate keys
+//@ pred ruleKeys(ru *inCategoryRatesRule, c *CategoryDef) bool = ru != nil && ru.cat == c.Code && len(ru.keys) == len(c.Rates) && (forall k int :: 0 <= k && k < len(c.Rates) ==> ru.keys[k] == c.Rates[k].Key)
+//@ func (r *RegimeDef) InCategoryRates(cat) (rule)
+//@   requires r != nil ==> regimeCatsOK(r)
+//@   assume-frame absentRule).Error |
+//@   ensures [keys] r != nil ==> (forall i int :: 0 <= i && i < len(r.Categories) && r.Categories[i].Code == cat && (forall j int :: 0 <= j && j < i ==> r.Categories[j].Code != cat) ==> typeis(rule, *inCategoryRatesRule) && ruleKeys(unboxed(rule, *inCategoryRatesRule), r.Categories[i]))
+//@   loop 1 invariant len(keys) == len(c.Rates) && fresh(keys) && (forall i int :: 0 <= i && i < idx ==> keys[i] == c.Rates[i].Key)
+//
+// a rate key passes the rule exactly when it is empty or has one of the category's keys
+//@ func (r *inCategoryRatesRule) Validate(value) (err)
+//@   requires r != nil
+//@   ensures [iff] typeis(value, cbc.Key) && unboxed(value, cbc.Key) != "" ==> (err == nil <==> (exists i int :: 0 <= i && i < len(r.keys) && Has(unboxed(value, cbc.Key), r.keys[i])))
+//@   ensures [skip] !typeis(value, cbc.Key) || unboxed(value, cbc.Key) == "" ==> err == nil
+//@   loop 1 invariant forall j int :: 0 <= j && j < idx ==> !Has(key, r.keys[j])
+//
+// the regime whose tables a combo is validated against is the one registered for its country
+// override when it has one (none if that country has no regime), else the document's regime
+//@ func (c *Combo) ValidateWithContext(ctx) (err)
+//@   requires c != nil
+//@   modifies *
+//@   at-call RegimeDef).InCategories assert [regime] $arg0 == ite(c.Country == "", RegimeDefFromContext(ctx), RegimeDefFor(l10n.Code(c.Country)))
+//@   at-call RegimeDef).InCategoryRates assert [regime] $arg0 == ite(c.Country == "", RegimeDefFromContext(ctx), RegimeDefFor(l10n.Code(c.Country))) && $arg1 == c.Category
+//
+// ---- C18: every tag of a validated document is one of the offered tags
+//@ func (tv *tagValidation) Validate(val) (err)
+//@   requires tv != nil
+//@   ensures [offered] typeis(val, Tags) ==> (err == nil <==> (forall i int :: 0 <= i && i < len(unboxed(val, Tags).List) ==> cbc.keyAmong(unboxed(val, Tags).List[i], tv.keys)))
+//@   loop 1 invariant forall j int :: 0 <= j && j < idx ==> cbc.keyAmong(list[j], tv.keys)
